@@ -77,11 +77,15 @@ def gen_template(rng, ids, depth_max=3, allow_region=True):
         pattrs["cache_timeout"] = str(rng.choice([30, 90]))
     if allow_region and rng.random() < 0.2:
         pattrs["cache_region"] = "rp"
-    page = Sec(new_id(), "page", "body", pcached, None, body_items, pattrs)
+    # a key of its own on the page: it belongs to the body only, never to the other cached sections of the template
+    pkey = "${x}" if (pcached and rng.random() < 0.4) else None
+    page = Sec(new_id(), "page", "body", pcached, pkey, body_items, pattrs)
 
     lines = []
-    if pcached or pattrs:
+    if pcached or pattrs or pkey:
         a = ['cached="True"'] if pcached else []
+        if pkey:
+            a.append('cache_key="%s"' % pkey)
         a += ['%s="%s"' % kv for kv in pattrs.items()]
         lines.append("<%%page %s/>" % " ".join(a))
 
@@ -283,6 +287,10 @@ def judge(ctx, case):
             n_ctx = sum(1 for s_ in secs_t if s_.cached and s_.keyexpr)
             names = [key_name(s_) for s_ in secs_t if s_.cached and not s_.keyexpr]
             for kind, (cid, key), kw in log:
+                # "again after invalidate for that key": the key is the value of the cache_key expression, whatever representation
+                # the cache layer chose to hand to the backend (an int x arriving as "1" is still the entry invalidate(1) names)
+                if isinstance(key, str) and key not in names and key.isdigit():
+                    key = int(key)
                 unambiguous = (n_ctx == 1) if isinstance(key, int) else (names.count(key) == 1)
                 if kind == "hit" and (op[1], key) in invalidated and unambiguous:
                     ctx.violation({"uris": case["uris"], "sources": [t[1] for t in case["tmpls"]], "ops": [list(o) for o in case["ops"][:i + 1]], "key": repr(key), "backend": case["impl"], "log": repr([(a, b[1], c.get("region")) for a, b, c in log]), "invalidated": repr(sorted(invalidated, key=repr))},
